@@ -302,28 +302,25 @@ func r2report(c *core.Ctx, m *drvModel) {
 
 // r2reportMain: AddClient(clientip, teid, upfip) with the three results of one EstablishPDU call.
 func r2reportMain(c *core.Ctx, R string) {
-
-	if who := mainDelegates(c); who != "" {
-		c.SoftUndecided("%s: main hands the modes over to %s; the main-level rules read the body of main only", R, who)
-		return
-	}
 	mainFn := mustFunc(c, pMain, "main")
-	mp := core.NewPather(mainFn)
 	n := 0
-	for _, ci := range core.Calls(mainFn) {
-		name := core.CalleeName(ci.Common())
-		if !strings.HasSuffix(name, "XDPGTP.AddClient") {
-			continue
+	for _, body := range mainBodies(c) {
+		mp := body.p
+		for _, ci := range core.Calls(body.fn) {
+			name := core.CalleeName(ci.Common())
+			if !strings.HasSuffix(name, "XDPGTP.AddClient") {
+				continue
+			}
+			n++
+			a := ci.Common().Args
+			var got []string
+			for _, x := range a[len(a)-3:] {
+				got = append(got, mp.Path(x))
+			}
+			est := "call:" + pStg + ".EstablishPDU("
+			okA := strings.HasPrefix(got[0], est) && strings.HasSuffix(got[0], "#0") && got[1] == strings.TrimSuffix(got[0], "#0")+"#1" && got[2] == strings.TrimSuffix(got[0], "#0")+"#2"
+			c.Check(okA, R, "main:AddClient:args", ci.Pos(), "AddClient(clientip, teid, upfip) of one EstablishPDU call", "main must register the UE IP, TEID and UPF address returned by one EstablishPDU call, in this order")
 		}
-		n++
-		a := ci.Common().Args
-		var got []string
-		for _, x := range a[len(a)-3:] {
-			got = append(got, mp.Path(x))
-		}
-		est := "call:" + pStg + ".EstablishPDU("
-		okA := strings.HasPrefix(got[0], est) && strings.HasSuffix(got[0], "#0") && got[1] == strings.TrimSuffix(got[0], "#0")+"#1" && got[2] == strings.TrimSuffix(got[0], "#0")+"#2"
-		c.Check(okA, R, "main:AddClient:args", ci.Pos(), "AddClient(clientip, teid, upfip) of one EstablishPDU call", "main must register the UE IP, TEID and UPF address returned by one EstablishPDU call, in this order")
 	}
 	if n == 0 {
 		c.Fail(R, "main:AddClient", mainFn.Pos(), "main never registers an established session with the data plane")
@@ -460,13 +457,21 @@ func r2main(c *core.Ctx) {
 	c.Rule(RC, "every ueList[i]/pduList[i] in main sits in a loop whose bound is provably <= the number of registrations; service/release bounds <= establishment bound")
 	c.Rule(RO, "per mode: connect < NG setup < register* < establish* < service* < release* < deregister*, never backwards")
 
-	if who := mainDelegates(c); who != "" {
-		c.SoftUndecided("%s/R2.order: main hands the modes over to %s; the main-level rules read the body of main only", RC, who)
-		return
+	nIdxAll := 0
+	for _, body := range modeBodies(c) {
+		nIdxAll += r2mainBody(c, RC, RO, body)
 	}
-	fn := mustFunc(c, pMain, "main")
+	c.Sites(nIdxAll)
+	if nIdxAll < 6 {
+		c.SoftUndecided("main: only %d list index sites recognised (confirmed by hand: 10)", nIdxAll)
+	}
+}
+
+// r2mainBody: the clamp and order obligations of one body that runs modes; returns the number of
+// list index sites it found.
+func r2mainBody(c *core.Ctx, RC, RO string, body *mainBody) int {
+	fn, p := body.fn, body.p
 	c.Analysed(core.FuncName(fn))
-	p := core.NewPather(fn)
 	loops := map[*ssa.BasicBlock]*countedLoop{}
 	for _, b := range fn.Blocks {
 		if l := countedLoopOf(b); l != nil {
@@ -607,15 +612,11 @@ func r2main(c *core.Ctx) {
 			c.Check(le(l.bound, L.count, 0), RC, key, in.Pos(), "loop bound <= number of registrations ("+lastSegments(L.count, 1)+")", "the loop runs up to %s, which is not provably <= the number of registered UEs (%s): with more repetitions than registrations the index runs past the list", clip(p.Path(l.bound)), lastSegments(L.count, 1))
 		}
 	}
-	c.Sites(nIdx)
-	if nIdx < 6 {
-		c.SoftUndecided("main: only %d list index sites recognised (confirmed by hand: 10)", nIdx)
-	}
 	// procedure calls, their loops, order and prerequisite bounds
 	procs := []string{"RegisterUE", "EstablishPDU", "ServiceRequest", "ReleasePDU", "DeregisterUE"}
 	conns := core.CallsTo(fn, pTglib+".ConnectToAmf")
 	for mi, co := range conns {
-		mode := fmt.Sprintf("mode%d", mi+1)
+		mode := fmt.Sprintf("mode%d", body.first+mi+1)
 		var calls []ssa.CallInstruction
 		var names []string
 		bounds := map[string]*countedLoop{}
@@ -678,6 +679,7 @@ func r2main(c *core.Ctx) {
 			}
 		}
 	}
+	return nIdx
 }
 
 // sameCount: both bounds are lengths of lists filled in the same registration loop.
